@@ -21,7 +21,7 @@ ASSUMPTIONS = ['batch vs stream: max-abs difference <= 1e-12 (a batch constructo
                'the streaming instance is created without data but with the same effective configuration and started from the first row of the batch run',
                'Madgwick\'s default gain depends on whether magnetometer data was given to the constructor (documented default); both runs get the same explicit gain',
                'bounded: histories of length 5 over 3 sample symbols, 2 live instances x 3 updates + 1 construction event']
-REQUIRED_CLASSES = ['batch=stream', 'repeat', 'schedule', 'shared-weights', 'param-pair']
+REQUIRED_CLASSES = ['dt-per-call', 'stream:carriers', 'batch=stream', 'repeat', 'schedule', 'shared-weights', 'param-pair']
 
 S = [  # (gyr, acc, mag) sample symbols
     (np.array([0.01, -0.02, 0.03]), np.array([0.1, 0.2, 9.7]), np.array([22.0, 1.0, 40.0])),
@@ -58,6 +58,8 @@ def _seed(r):
 def job_batch_stream(ctx, key):
     r = rr.by_key(key)
     words = [(0,) + w for w in itertools.product(range(3), repeat=4)]
+    # every short record length as well (2, 3, 4 samples: a 3-sample record is a square 3-by-3 array per sensor)
+    words += [(0,) + w for L in (1, 2, 3) for w in itertools.product(range(3), repeat=L)]
     hists = [('word=' + ''.join(map(str, w)), history(w)) for w in words] + [(f'long#{k}', long_history(k)) for k in (0, 1)]
     # histories containing dropout samples (all-zero magnetometer / accelerometer rows): where the batch run accepts the record, streaming must agree
     for dn, rows_m, rows_a in (('mag-dropout', (7, 20, 21), ()), ('acc-dropout', (), (9, 30)), ('both', (12,), (12, 25))):
@@ -289,6 +291,54 @@ def _seq(key, cfgs):
     return [_run_cfg(key, c) for c in cfgs]
 
 
+def _step_with_dt(r, inst, q, g, a, m, dt):
+    """One streaming step with the step size given PER CALL (keyword dt); None when the update method has no such keyword."""
+    import inspect
+    if r.cls_name == 'AngularRate':
+        return None
+    name = 'update' if not hasattr(inst, 'updateIMU') else ('updateMARG' if r.has_mag else 'updateIMU')
+    fn = getattr(inst, name, None)
+    if fn is None or 'dt' not in inspect.signature(fn).parameters:
+        return None
+    args = (q, g, a, m) if (r.has_mag and name != 'updateIMU') else (q, g, a)
+    return fn(*args, dt=dt)
+
+
+def job_dt_per_call(ctx, key):
+    """batch(frequency=50) = streaming on an object built with the DEFAULT frequency whose update gets dt=1/50 at every call (and = streaming on
+    an object built with frequency=50): the per-call step size is honoured by every update method that offers it."""
+    r = rr.by_key(key)
+    if r.step_fn is None:
+        return
+    for ci, cfg0 in enumerate(r.cfgs):
+        cfg = {k_: v for k_, v in cfg0.items() if k_ not in ('frequency', 'Dt')}
+        for hn, (g, a, m) in (('word=01210', history((0, 1, 2, 1, 0))), ('long#1', long_history(1, 24))):
+            kk = f'filter={key} cfg#{ci} {hn} dt=0.02 per call'
+            try:
+                _seed(r)
+                b = r.output(r.batch(g, a, m, dict(cfg, frequency=50.0)))
+                inst = r.fresh(cfg)                       # default frequency (100 Hz)
+                q = b[0].copy(); rows = [q.copy()]
+                for t in range(1, len(g)):
+                    out = _step_with_dt(r, inst, np.array(q, float), g[t].copy(), a[t].copy(), m[t].copy() if r.has_mag else None, 0.02)
+                    if out is None:
+                        rows = None
+                        break
+                    q = np.array(out, float); rows.append(q)
+            except Exception as ex:
+                ctx.evals += 1
+                ctx.fail(f'{key}: run with a per-call dt raises', kk, f'{type(ex).__name__}: {ex}'[:200], 'completes')
+                continue
+            if rows is None:
+                ctx.outcome(('no-dt-keyword', key))
+                continue
+            ctx.close(np.array(rows), b, 1e-12, f'{key}: batch(frequency=50) = stream with dt=1/50 given at every call', kk)
+            ctx.cls('dt-per-call')
+            ctx.seen((key, ci, hn, 'dt'))
+            ctx.traces += 2
+    ctx.sample({'filter': key, 'dt_per_call': 0.02})
+
+
 def job_param_pairs(ctx, key):
     """Two instances of one class that differ in ONE constructor parameter, in both creation orders, against solo runs made in
     pristine child processes (state cached at class or module level and keyed incompletely shows here)."""
@@ -356,6 +406,7 @@ def run(ctx):
             jobs.append(('job_interleave', (keys, i, j)))
     jobs.append(('job_shared_weights', ()))
     jobs += [('job_param_pairs', (r.key,)) for r in regs]
+    jobs += [('job_dt_per_call', (r.key,)) for r in regs]
     core.run_jobs(ctx, __name__, jobs)
     ctx.notes['interleaved_filter_entries'] = keys
     ctx.notes['schedules_per_pair'] = 140
